@@ -278,7 +278,7 @@ int main (int argc, char **argv) {
 	tmpdir = argv[3]; prefix = argv[4];
 	in = __real_fopen (argv[1], "r"); if (!in) return 2;
 	vt_open (argv[2]);
-	p_libsys_init ();
+	p_libsys_init (); p_libsys_shutdown (); p_libsys_init ();      /* the library is used after a shutdown / re-initialisation cycle */
 	/* warm-up: lazily initialised state of libc and of the library (resolver, dlopen bookkeeping, the library's own TLS key) */
 	{ Obj w; const char *ks[] = { "loader", "thread", "tcp", "dir", "sem", "shm", "ini", NULL }; int i; for (i = 0; ks[i]; i++) if (acquire (ks[i], 1, &w)) release (&w); nkeys = 0; }
 	vt.f_malloc = a_malloc; vt.f_realloc = a_realloc; vt.f_free = a_free;
